@@ -44,6 +44,9 @@ def run_pool(scenarios, monitor=None, diff_filter=None, with_model=True):
             for x in res["diffs"]:
                 if diff_filter is None or diff_filter(x):
                     diffs.append({"what": x[:500], "replay": sc})
+            for st in res["steps"]:
+                for u in (st["impl"] or {}).get("unparsable", []) if isinstance(st["impl"], dict) else []:
+                    fails.append({"what": f"{st['op']['op']} left {u['file']} behind, which is not a well-formed manifest ({u['error']}); exit {st['impl']['exit']} {st['impl']['exc'] or ''}", "replay": sc})
             if monitor:
                 for f in monitor(sc, res) or []:
                     fails.append(f)
